@@ -154,7 +154,9 @@ def rename(job):
         "has": {cm[c]: v for c, v in sh["has"].items()},
         "resets": {cm[c]: v for c, v in sh["resets"].items()},
         "plain": {cm[c]: v for c, v in sh["plain"].items()},
-        "feedbacks": [{"o": cm.get(g["o"], g["o"]), "key": g["key"] + sfx} for g in sh["feedbacks"]],
+        "feedbacks": [{"o": cm.get(g["o"], g["o"]), "key": g["key"] + sfx,
+                       "ty": (sh.get("fbtypes") or {}).get(g["key"], "int") if isinstance(sh.get("fbtypes"), dict) else "int"}
+                      for g in sh["feedbacks"]],
         "teleAuto": sh["teleAuto"], "modes": [mm[m] for m in sh["modes"]],
         "defmode": mm.get(sh["defmode"], sh["defmode"]), "period": sh["period"],
     }
@@ -237,7 +239,7 @@ def make_canary(prop, traces):
                 c = copy.deepcopy(t)
                 a = sorted(t["shape"]["resets"][e["o"]])[0]
                 c["steps"][i]["in"]["vals"][e["o"]][a] += 1
-            elif prop == "C11" and e["e"] == "wait" and e.get("fb"):
+            elif prop == "C11" and e["e"] == "wait" and e.get("fb") and min(e["fb"].values()) >= 0:
                 c = copy.deepcopy(t)
                 k = sorted(e["fb"])[0]
                 c["steps"][i]["in"]["fb"][k] += 1
